@@ -318,7 +318,7 @@ KINDS = ("StandardNormal", "StandardNormal[2,1]", "ConditionalDiagonalNormal", "
 
 def configs(tier):
     q = tier == "quick"
-    return [{"kind": k, "maxn": 4 if q else 6, "maxrows": 2 if q else 3} for k in KINDS]
+    return [{"kind": k, "maxn": 4 if q else 8, "maxrows": 2 if q else 4} for k in KINDS]
 
 
 def main():
